@@ -1,4 +1,5 @@
 import JSL.Inv.Init
+import JSL.Inv.EnvReach
 import JSL.Props.Example
 
 /-!
@@ -50,6 +51,51 @@ theorem c03_same_components (h0 : initOKB inst s0 = true) (h : Occurs orc inst c
   obtain ⟨w, hI0⟩ := initOKB_sound h0
   have hI := occurs_struct w hI0 h
   exact ⟨hI.shape.jobIds, hI.shape.machineIds, hI.shape.transportIds, hI.shape.bufIds⟩
+
+/-! ## every state the environment exposes, whatever the agent does -/
+
+/-- conservation at every state the environment exposes in any episode -/
+theorem c03_env_conserved {ec : EnvCfg} {st : RewardStatic} (hst : Start orc inst s0)
+    (h : Exposed orc inst ec st s0 σ) :
+    ∀ j ∈ σ.jobs, ∃ b ∈ allBufStates σ, j.id ∈ b.store ∧ b.id = j.loc ∧
+      ∀ b' ∈ allBufStates σ, j.id ∈ b'.store → b' = b := by
+  obtain ⟨w, hI, _⟩ := exposed_inv hst h
+  have c := hI.cons.toM hI.shape w
+  intro j hj
+  obtain ⟨b, hb, hbi, hin⟩ := c.located j hj
+  refine ⟨b, hb, hin, hbi, ?_⟩
+  intro b' hb' hin'
+  obtain ⟨j', hj', e1, e2⟩ := c.stored b' hb' j.id hin'
+  have : j' = j := eq_of_mem_of_key_eq (key := fun (y : JobState) => y.id) (hI.shape.jobsNodup w) hj' hj e1
+  subst this
+  exact allBufs_inj hI.shape w hb' hb (by rw [← e2, hbi])
+
+/-- **A busy machine holds exactly one job** – the job whose running operation is recorded on
+that machine – **and an idle machine holds none.** -/
+theorem c03_machine_holding {ec : EnvCfg} {st : RewardStatic} (hst : Start orc inst s0)
+    (h : Exposed orc inst ec st s0 σ) (m : MachineState) (hm : m ∈ σ.machines) :
+    (m.st = .idle → m.buffer.store = []) ∧
+    (m.st ≠ .idle → ∃ j ∈ σ.jobs, m.buffer.store = [j.id] ∧ j.loc = m.buffer.id ∧
+        ∃ op, j.processing? = some op ∧ op.machine = m.id) := by
+  obtain ⟨w, hI, t, hS⟩ := exposed_inv hst h
+  refine ⟨hS.idleEmpty m hm, fun hb => ?_⟩
+  obtain ⟨j, hj, hstore, op, hop, hmid, _, _⟩ := hS.busyHolds m hm hb
+  refine ⟨j, hj, hstore, ?_, op, hop, hmid⟩
+  have c := hI.cons.toM hI.shape w
+  have hbm : m.buffer ∈ allBufStates σ := by
+    unfold allBufStates
+    simp only [List.mem_append, List.mem_flatMap]
+    exact Or.inl (Or.inr ⟨m, hm, by simp⟩)
+  obtain ⟨j', hj', e1, e2⟩ := c.stored m.buffer hbm j.id (by rw [hstore]; simp)
+  have : j' = j := eq_of_mem_of_key_eq (key := fun (y : JobState) => y.id) (hI.shape.jobsNodup w) hj' hj e1
+  subst this; exact e2
+
+/-- an idle AGV (and one in its drop-off outage) claims no job -/
+theorem c03_idle_agv_claims_nothing {ec : EnvCfg} {st : RewardStatic} (hst : Start orc inst s0)
+    (h : Exposed orc inst ec st s0 σ) (t : TransportState) (ht : t ∈ σ.transports)
+    (hi : t.st = .idle ∨ t.st = .outage) : t.job = none := by
+  obtain ⟨_, _, _, hS⟩ := exposed_inv hst h
+  exact hS.freeNoClaim t ht hi
 
 /-- non-vacuity: a compiled 2×2 instance with one AGV satisfies the guard -/
 example : initOKB Ex.inst Ex.s0 = true := Ex.initOK
